@@ -1,0 +1,30 @@
+//go:build verif
+
+package fs
+
+import (
+	"github.com/containerd/stargz-snapshotter/fs/layer"
+	"github.com/containerd/stargz-snapshotter/snapshot"
+)
+
+// Verification hooks (build tag "verif" only) for property C12: reach the layer resolver of a filesystem made by
+// NewFilesystem (to fire cache expiry at chosen points) and the layer registered under a mountpoint. No behaviour change.
+
+// VerifResolverC12 returns the layer resolver of f.
+func VerifResolverC12(f snapshot.FileSystem) *layer.Resolver {
+	if x, ok := f.(*filesystem); ok {
+		return x.resolver
+	}
+	return nil
+}
+
+// VerifMountedLayerC12 returns the layer registered under mountpoint and the number of registered mountpoints.
+func VerifMountedLayerC12(f snapshot.FileSystem, mountpoint string) (layer.Layer, int) {
+	x, ok := f.(*filesystem)
+	if !ok {
+		return nil, 0
+	}
+	x.layerMu.Lock()
+	defer x.layerMu.Unlock()
+	return x.layer[mountpoint], len(x.layer)
+}
